@@ -159,6 +159,7 @@ def gen_content(ch, cfg):
     c["offset_neg"] = bool(ch.draw("offset_neg", 2))
     c["sigma_pow"] = ch.pick("sigma", (0, -4, 5, 0, -24, 14))             # noise rms 2**sigma_pow: also ~6e-8 and 16384
     c["offset_pow"] = None if rel is None else c["sigma_pow"] + rel
+    c["slope_pow"] = ch.pick("slope", (-6, -3, -1))        # gradient images: 2**slope_pow noise rms per row (half per column)
     nb = ch.weighted("nblank_kind", [5, 2, 1, 1, 1])                      # none|pixels|block|row|col
     c["blank"] = ("none", "pixels", "block", "row", "col")[nb]
     c["blank_inf"] = bool(ch.draw("blank_inf", 2)) if nb else False
@@ -204,7 +205,8 @@ def make_image(cfg, content, shift=0.0, scale=1.0):
         if content["kind"] == "gradient":
             rr = np.arange(rows)[:, None]
             cc = np.arange(cols)[None, :]
-            base = base + sigma * (rr * 2.0 ** -6 + cc * 2.0 ** -7)
+            sp = content.get("slope_pow", -6)
+            base = base + sigma * (rr * 2.0 ** sp + cc * 2.0 ** (sp - 1))
     off = 0.0
     if content["offset_pow"] is not None:
         off = 2.0 ** content["offset_pow"] * (-1.0 if content["offset_neg"] else 1.0)
